@@ -193,6 +193,22 @@ reg(r'<%s as std::clone::Clone>::clone' % _PRIM, lambda it, a: deref_all(a))
 reg(r'<(u8|u16|u32|u64|usize|i32|i64) as std::default::Default>::default', lambda it: 0)
 reg(r'<bool as std::default::Default>::default', lambda it: False)
 reg(r'<f64 as std::default::Default>::default', lambda it: 0.0)
+import math as _math
+def _f64_1(name, fn):
+    def m(it, a):
+        a = deref_all(a)
+        if not isinstance(a, float): raise Unsupported('f64::%s of a symbolic value' % name)
+        return fn(a)
+    reg(r'(?:std|core)::f64::<impl f64>::%s' % name, m)
+_f64_1('fract', lambda a: a if _math.isinf(a) and False else (float('nan') if _math.isinf(a) or a != a else _math.copysign(abs(a) - _math.floor(abs(a)), a) if a != 0 else a))
+_f64_1('trunc', lambda a: a if (_math.isinf(a) or a != a) else _math.copysign(float(_math.floor(abs(a))), a))
+_f64_1('floor', lambda a: a if (_math.isinf(a) or a != a) else float(_math.floor(a)))
+_f64_1('ceil', lambda a: a if (_math.isinf(a) or a != a) else float(_math.ceil(a)))
+_f64_1('abs', lambda a: abs(a))
+_f64_1('is_nan', lambda a: a != a)
+_f64_1('is_finite', lambda a: not (_math.isinf(a) or a != a))
+_f64_1('is_infinite', lambda a: _math.isinf(a))
+_f64_1('is_sign_negative', lambda a: _math.copysign(1.0, a) < 0)
 reg(r'core::num::<impl (?:u8|u16|u32|u64|usize|i32|i64)>::(?:min|max)_value', None)
 @model(r'core::num::<impl (u8|u16|u32|u64|usize|i32|i64)>::pow', True)
 def m_pow(it, callee, b, e):
@@ -353,8 +369,16 @@ def m_unwrap_or_default(it, callee, o):
     if o.variant == 1: return o.fields[0]
     ty = re.fullmatch(r'std::option::Option::<(.*)>::unwrap_or_default', callee).group(1)
     return default_of(it, ty)
+@model(r'std::result::Result::<(.*)>::unwrap_or_default', True)
+def m_res_unwrap_or_default(it, callee, r):
+    if r.variant == 0: return r.fields[0]
+    ty = split_top(re.fullmatch(r'std::result::Result::<(.*)>::unwrap_or_default', callee).group(1), ',')[0]
+    return default_of(it, ty)
 def default_of(it, ty):
     ty = ty.strip()
+    if ty in ('f64', 'f32'): return 0.0
+    if ty in ('u8', 'u16', 'u32', 'u64', 'usize', 'i8', 'i16', 'i32', 'i64', 'isize'): return 0
+    if ty == 'bool': return False
     if ty.startswith('(') and ty.endswith(')'):
         return [default_of(it, t) for t in split_top(ty[1:-1], ',') if t.strip()]
     return it.call('<%s as std::default::Default>::default' % ty, [])
@@ -519,7 +543,10 @@ def m_char_indices(it, s):
 @model(r'std::string::String::into_bytes')
 def m_into_bytes(it, s): return str_bytes(it, deref_all(s))
 @model(r'(core::str::<impl str>|std::string::String)::as_bytes')
-def m_as_bytes(it, s): return Ref(Box_(str_bytes(it, deref_all(s))))
+def m_as_bytes(it, s): return Ref(Box_(StrBytes(str_bytes(it, deref_all(s)), deref_all(s).chars)))
+class StrBytes(list):
+    """the bytes of a borrowed str (immutable); remembers the code points they encode"""
+    def __init__(self, bs, chars): super().__init__(bs); self.chars = list(chars)
 @model(r'core::str::<impl str>::bytes')
 def m_str_bytes(it, s): return PyIter(str_bytes(it, deref_all(s)))
 def str_bytes(it, s):
@@ -683,6 +710,16 @@ def m_replace_str(it, callee, s, a, b, *n):
     for i, p in enumerate(parts):
         if i: out += deref_all(b).chars
         out += p.chars
+    return SStr(out)
+@model(r'(?:core|std|alloc)::str::<impl str>::replace::<(&\[char\]|\[char; \d+\]|&\[char; \d+\]|fn\(char\) -> bool \{.*\}|\{closure@.*\})>', True)
+def m_replace_charset(it, callee, s, pats, b):
+    out = []; rep = deref_all(b).chars
+    if 'closure' in callee or 'fn(' in callee: hit = lambda c: B(it, it.call_closure(pats, c))
+    else:
+        ps = list(deref_all(pats)); hit = lambda c: B(it, zor(*[c == p_ for p_ in ps]))
+    for c in deref_all(s).chars:
+        if hit(c): out += rep
+        else: out.append(c)
     return SStr(out)
 @model(r'std::slice::<impl \[(std::string::String|&str)\]>::join::<&str>')
 def m_join(it, v, sep):
